@@ -75,7 +75,10 @@ func validateEndBuf(src []byte, cursor int64) error {
 			cursor++
 			continue
 		case nul:
-			return nil
+			if cursor == int64(len(src)-1) {
+				// the terminator appended by the caller, not a NUL byte of the input
+				return nil
+			}
 		}
 		return errors.ErrSyntax(
 			fmt.Sprintf("invalid character '%c' after top-level value", src[cursor]),
